@@ -96,6 +96,65 @@ def _worker_init(engine: Engine) -> None:
         raise
 
 
+_PRISTINE_STATE: Optional[Dict[Tuple[str, str], object]] = None
+_STATE_MODULES = ("Reduino", "Reduino.transpile.parser", "Reduino.transpile.emitter", "Reduino.toolchain.pio")
+
+
+def reset_module_state() -> None:
+    """Every case starts from the module state of a fresh interpreter.
+
+    One run is one case: what a case does to module-level containers or memo caches of the code under test must not
+    reach the next case of the same worker process, otherwise a violation would depend on the worker's history and
+    would not replay from its file.  (Effects that are supposed to be visible across calls are modelled inside a
+    case: the call histories of C10, the earlier target() call of C12, the write histories of C13.)"""
+
+    global _PRISTINE_STATE
+    import copy
+    import sys
+
+    import importlib
+
+    from dst.core.common import setup_repo_import
+
+    setup_repo_import()
+    mods = []
+    for m in _STATE_MODULES:
+        try:
+            mods.append(importlib.import_module(m))
+        except Exception:
+            pass
+    if _PRISTINE_STATE is None:
+        snap: Dict[Tuple[str, str], object] = {}
+        for mod in mods:
+            for name, obj in vars(mod).items():
+                if isinstance(obj, (dict, list, set)) and not name.startswith("__"):
+                    try:
+                        snap[(mod.__name__, name)] = copy.deepcopy(obj)
+                    except Exception:
+                        pass
+        _PRISTINE_STATE = snap
+        return
+    for mod in mods:
+        for name, obj in list(vars(mod).items()):
+            clear = getattr(obj, "cache_clear", None)
+            if callable(clear):
+                try:
+                    clear()
+                except Exception:
+                    pass
+            key = (mod.__name__, name)
+            if key in _PRISTINE_STATE and isinstance(obj, (dict, list, set)):
+                pristine = copy.deepcopy(_PRISTINE_STATE[key])
+                if obj != pristine:
+                    obj.clear()
+                    if isinstance(obj, dict):
+                        obj.update(pristine)  # type: ignore[arg-type]
+                    elif isinstance(obj, list):
+                        obj.extend(pristine)  # type: ignore[arg-type]
+                    else:
+                        obj.update(pristine)  # type: ignore[arg-type]
+
+
 def _worker_run(args) -> Tuple[int, dict, Optional[dict], float]:
     seed, idx, tier, avoid = args
     engine = _ENGINE
@@ -109,6 +168,7 @@ def _worker_run(args) -> Tuple[int, dict, Optional[dict], float]:
         case.setdefault("property", engine.property_id)
         case["seed"] = seed
         case["run"] = idx
+        reset_module_state()
         outcome = engine.execute(case)
     except Exception as exc:
         return idx, {"status": "harness", "message": traceback.format_exc()[-3000:]}, None, time.time() - t0
@@ -210,6 +270,7 @@ def replay_dir() -> Path:
 
 def execute_case(engine: Engine, case: dict) -> Outcome:
     engine.setup()
+    reset_module_state()
     return engine.execute(case)
 
 
@@ -231,6 +292,7 @@ def minimise(engine: Engine, case: dict, cls: str, *, max_steps: int = 250, max_
             if steps > max_steps or _time.monotonic() >= t_end:
                 break
             try:
+                reset_module_state()
                 out = engine.execute(cand)
             except Exception:
                 continue
